@@ -87,6 +87,11 @@ CLAIMED = {
   note="Does not decide value-level merge arithmetic (newest wins, excluded ranges), block size/count limits, or sortedness of output blocks.",
   technique="static analysis: path exploration with outcome facts, attribute-set comparison between first-block test and per-block loop, struct-field coverage of re-initialisation, definition provenance",
   ref="§9 C09"),
+ "C11": dict(
+  text="Structural clauses of query determinism: points streamed between nodes keep every attribute (for the five point types encode<T>Point reads every struct field, decode<T>Point sets every field, and the stream decoder delivers the whole struct or a covering field-wise copy); for each of the ten storage-cursor merge functions next<T> the behaviour on every weak ordering of (cache key, file key, EOF) equals the merge table (both exhausted / equal keys: cache value and both advance / cache first in the cursor's direction / file first); ascending and descending code is mirror-symmetric wherever both are written out (if/else arms on opt.Ascending, '&&' alternatives over the same operands, ascending/descending cursor siblings): same comparisons with < and > exchanged.",
+  note="Does not decide window arithmetic, fill values, aggregate functions, limit/offset, or equality of multi-shard/multi-node results with a single-shard evaluation.",
+  technique="static analysis: struct-field coverage of codecs, marked path exploration + exhaustive evaluation of compiled path conditions over all weak orderings, comparison-sequence mirror agreement",
+  ref="§9 C11"),
 }
 
 NA = {
